@@ -13,7 +13,8 @@ from .. import tdfref as R
 
 PROP = "C18"
 LABELS = ["", "a", "A", " a", "a "]
-RULE = ("states = (class, label tuple, origin built|decoded); 156 label tuples x 4 classes x 2 origins; ~35 key "
+RULE = ("states = (class, label tuple, origin built|decoded[, one edit: relabel item i / remove item i / append]); 156 label "
+        "tuples x 4 classes x 2 origins, each also followed by every single edit with lookups before and after; ~35 key "
         "evaluations each ([], in, len, iter) against a plain Python list model; non-trivial = tuple has a duplicate "
         "label or an empty label")
 ASSUMPTIONS = [
@@ -36,16 +37,87 @@ def make(t, labels):
     return gen.events([gen.mk_event(lab, 1, 2, i) for i, lab in enumerate(labels)])
 
 
-def check_one(t, labels, origin, acc):
+def make_block(t, labels, origin):
     sp = make(t, labels)
-    name = R.NAMES[t]
     b = specs.build(sp)
     if origin == "decoded":
         b = specs.lib_decode(t, sp["format"], specs.lib_encode(b))[0]
+    return sp, b
+
+
+def check_one(t, labels, origin, acc):
+    sp, b = make_block(t, labels, origin)
+    return check_block(t, b, sp, labels, f"{R.NAMES[t]} labels={list(labels)} ({origin})", acc)
+
+
+EDITS = ("relabel", "remove", "append")
+
+
+def edits_for(labels):
+    out = []
+    for i in range(len(labels)):
+        for new in LABELS:
+            if new != labels[i]:
+                out.append(("relabel", i, new))
+        out.append(("remove", i))
+    if len(labels) < 3:
+        for new in LABELS:
+            out.append(("append", new))
+    return out
+
+
+def apply_edit(t, b, sp, labels, edit):
+    """One edit through the public interface; returns the expected label list."""
+    labels = list(labels)
+    items = list(iter(b))
+    if edit[0] == "relabel":
+        items[edit[1]].label = edit[2]
+        labels[edit[1]] = edit[2]
+    elif edit[0] == "remove":
+        i = edit[1]
+        if t == R.T_EMG:
+            b.removeSignal(labels[i])          # removes the first signal carrying that label
+            del labels[labels.index(labels[i])]
+        elif t == R.T_EVENTS:
+            b.events.pop(i)
+            del labels[i]
+        else:
+            b.tracks = [x for k, x in enumerate(items) if k != i]
+            del labels[i]
+    else:
+        new = edit[1]
+        item_sp = (make(t, [new])["tracks"][0] if t in (R.T_DATA3D, R.T_FORCE3D) else
+                   make(t, [new])["items"][0][1] if t == R.T_EMG else make(t, [new])["events"][0])
+        it = specs.build_item(t, item_sp, sp)
+        if t == R.T_EMG:
+            b.addSignal(it)
+        elif t == R.T_EVENTS:
+            b.events.append(it)
+        else:
+            b.add_track(it)
+        labels.append(new)
+    return labels
+
+
+def check_edited(t, labels, origin, edit, acc):
+    """Look everything up once (whatever that caches), edit, look everything up again."""
+    sp, b = make_block(t, labels, origin)
+    where0 = f"{R.NAMES[t]} labels={list(labels)} ({origin})"
+    check_block(t, b, sp, labels, where0, acc)
+    try:
+        labels2 = apply_edit(t, b, sp, labels, edit)
+    except Exception as e:  # noqa: BLE001
+        raise core.Violation("edit-raises", f"{PROP}:{R.NAMES[t]}:edit-raises:{edit[0]}", None, f"{where0} {edit}: {type(e).__name__}: {e}")
+    acc.n["transitions"] += 1
+    return check_block(t, b, sp, labels2, f"{where0} after {edit}", acc, after_edit=edit[0])
+
+
+def check_block(t, b, sp, labels, where, acc, after_edit=None):
+    name = R.NAMES[t]
     before = specs.lib_encode(b)
-    where = f"{name} labels={list(labels)} ({origin})"
 
     def V(clause, detail, extra=""):
+        extra = ":".join(x for x in (extra, f"after-{after_edit}" if after_edit else "") if x)
         return core.Violation(clause, f"{PROP}:{name}:{clause}{(':' + extra) if extra else ''}", None, f"{where}: {detail}")
 
     items = list(iter(b))
@@ -153,7 +225,18 @@ def _shard(shard):
                 acc.n["traces"] += 1
             except core.Violation as v:
                 acc.violation(v.clause, v.sig, {"type": t, "labels": list(labels), "origin": origin}, v.detail)
-    acc.sample({"class": R.NAMES[t], "origin": origin, "label tuples": 156, "example": ["a", "", "a"]}, 1)
+            for edit in edits_for(labels):
+                acc.n["states"] += 1
+                acc.n["evaluations"] += 1
+                acc.n["nontrivial"] += 1
+                try:
+                    out = check_edited(t, labels, origin, edit, acc)
+                    acc.outcomes[f"{R.NAMES[t]}:{origin}:after-{edit[0]}:{out}"] += 1
+                    acc.n["traces"] += 1
+                except core.Violation as v:
+                    acc.violation(v.clause, v.sig, {"type": t, "labels": list(labels), "origin": origin, "edit": list(edit)}, v.detail)
+    acc.sample({"class": R.NAMES[t], "origin": origin, "label tuples": 156, "example": ["a", "", "a"],
+                "then": "every single relabel / remove / append, lookups before and after"}, 1)
     return acc
 
 
@@ -163,7 +246,11 @@ def run(tier):
 
 def replay(w):
     try:
-        check_one(w["type"], tuple(w["labels"]), w["origin"], core.Acc())
+        if w.get("edit"):
+            e = w["edit"]
+            check_edited(w["type"], tuple(w["labels"]), w["origin"], tuple(e), core.Acc())
+        else:
+            check_one(w["type"], tuple(w["labels"]), w["origin"], core.Acc())
     except core.Violation as v:
         return v
     return None
